@@ -176,6 +176,7 @@ func runC02(c *eng.Ctx) {
 	c.Rule("R02.5", "K1")
 	ruleAppendAssignsEpochsFromTheCache(c)
 	ruleAssignAcceptsOnNothingElse(c)
+	ruleLoadedEpochsBecomeTheCache(c)
 
 	// ---- R02.4 leader side
 	c.Rule("R05.5", "K2")
@@ -345,30 +346,7 @@ func runC02(c *eng.Ctx) {
 			c.Check(g && len(ge) > 0, "caught up means req.Offset >= newest", c.Pos(cu.(ssa.Instruction)), "caughtUp only on req.Offset >= log.NewestOffset()", "a replica is treated as caught up although it is behind (path "+w.String()+")")
 		}
 	}
-	for _, k := range []string{"server.(*replicator).shrinkISR", "server.(*replicator).expandISR"} {
-		fn := c.Fn(k)
-		if fn == nil {
-			continue
-		}
-		ok := 0
-		eng.Instrs(fn, func(in ssa.Instruction) {
-			if st, isSt := in.(*ssa.Store); isSt {
-				if fa, isFA := st.Addr.(*ssa.FieldAddr); isFA {
-					switch eng.FieldNameOf(fa) {
-					case "Leader":
-						if eng.LoadNamed("leader", eng.Param("r"))(st.Val) {
-							ok++
-						}
-					case "LeaderEpoch":
-						if eng.LoadNamed("epoch", eng.Param("r"))(st.Val) {
-							ok++
-						}
-					}
-				}
-			}
-		})
-		c.Check(ok == 2, fn.Name()+" carries the replicator's (leader, epoch)", p.Pos(fn.Pos()), "Leader: r.leader, LeaderEpoch: r.epoch", "the ISR change request does not carry the replicator's own leader and epoch: the controller's staleness fence is bypassed or always fails")
-	}
+	ruleISRChangeCarriesTheReplicatorsGeneration(c)
 	c.Floor(7)
 	// ---- R15.8 (shared) the configuration keys this property's switches hang on reach their fields
 	ruleConfigWiring(c, "R15.8")
